@@ -1157,7 +1157,8 @@ class AttrParser(BaseParser):
         def to_complex(
             self, parser: AttrParser, type: ComplexType
         ) -> tuple[float, float] | tuple[int, int]:
-            assert isinstance(self.value, tuple)
+            if not isinstance(self.value, tuple):
+                parser.raise_error("Expected complex value", at_position=self.span)
 
             if isinstance(type.element_type, AnyFloat):
                 return (float(self.value[0]), float(self.value[1]))
